@@ -11,35 +11,50 @@ VARIANT = int(os.environ.get("VERIF_C06_VARIANT", "15"))  # bits: 1 = F14 fixed 
 REGISTRATION = {
     "engine": "lean-kvcache",
     "technique": "Lean 4 refinement proof (cell/row model -> location-free spec) + differential correspondence "
-                 "on the real kvcache.Causal with an identity-carrying fake backend",
+                 "on the real kvcache.Causal / WrapperCache / EncoderCache with an identity-carrying fake backend + "
+                 "decision tables regenerated from the tree",
     "category": "proof",
-    "text": "Kernel-checked theorems over an executable Lean model of kvcache.Causal (cells, cellRanges, rows): "
-            "the mask of a successful StartForward exposes exactly the visible entries of the abstraction "
-            "(mask_exact), CopyPrefix / Remove / Put / sliding-window eviction commute with the abstraction to a "
-            "location-free specification, placement only uses free cells, invariants are preserved by every "
-            "operation for all histories (inv_run, mask_exact_all_histories); WrapperCache: a rejected batch is "
-            "unwound to the pre-batch abstraction in every wrapped cache, an accepted one satisfies mask_exact in "
-            "each; store / window eviction commute with the abstraction (forward_abs_perm, slide_abs, evict_invisible, "
-            "forward_exposes_stored_history); SetCausal/CausalOptions.Except (mask_exact_pass, startForward_except, "
-            "mask_exact_plain_after_reset); EncoderCache modelled with encoder_cached_exact. Model = code is checked on thousands of generated histories per run "
-            "(exposed entries + data per batch token, abstraction and exact cell/row/range layout after every "
-            "operation), and the property itself is evaluated on the real cache against a pure-Go shadow "
-            "specification (mask through Cache.Get, K and V rows, both layers).",
+    "text": "Kernel-checked theorems over an executable Lean model of kvcache.Causal (cells, cellRanges, rows). "
+            "The property itself is history_exposes_spec: from any configuration, after any history of ACCEPTED operations "
+            "(stores with any placement, window eviction, defrag-and-retry, CopyPrefix, Remove with shift, SetCausal, reserve "
+            "passes), every token of the next accepted batch is shown exactly (multiset of position, data identity, shift) the "
+            "entries the location-free specification computes for that history plus the batch, filtered by sequence, position "
+            "<= own and window (composition of refines_all_histories: abs(state) ~ runSpec, with forward_exposes_all_histories). "
+            "Lemmas: refines_step / refines_run (every accepted op changes the abstract state as the spec prescribes), "
+            "defrag_abs_perm (repaired defrag only relocates; loop invariant over deferred block copies), defragCore_compact + "
+            "full_only_without_room (ErrKvCacheFull only with fewer free cells than tokens), rejected_forward_abs, "
+            "forward_abs_perm (placement only uses unowned cells), mask_exact* (the mask agrees with the cell metadata and the "
+            "padded range covers the sequence; with SetCausal/Except: mask_exact_pass), reserve_mask_exact, canResume_sound "
+            "(repaired CanResume approves only complete windows), inv_run. WrapperCache: wrapper_forward_refines, "
+            "wrapper_rejected_batch_spec (a rejected wrapped batch leaves every wrapped cache's abstract state = before minus "
+            "eviction), wrapper_mask_exact; EncoderCache: encoder_cached_exact. Guards: AllSucceed (a refused Remove is "
+            "outside the refinement: pinned it leaves a half-done removal = finding F28 with witnesses; the repaired Remove is "
+            "proved atomic, removeV_error_unchanged); windowed caches refine a spec that contains the eviction (F15 known). "
+            "Tie: decision tables regenerated from the tree on every run (mask bit, eviction threshold, Remove outcome, CopyPrefix "
+            "owners, StartForward placement over all 5-cell occupancy patterns) consumed by Tie/C06.lean with decide; model = code "
+            "on thousands of generated histories per run (exposed entries + data per batch token, abstraction and exact "
+            "cell/row/range layout after every operation), and the property evaluated on the real cache against a pure-Go "
+            "shadow specification (mask through Cache.Get, K and V rows of every layer); required-branch coverage fails closed.",
     "design_ref": "DESIGN.md §5 C06",
     "note": COMMON_NOTE + "Modelled, not verified: int32 position arithmetic as unbounded Int (positions far from "
-            "2^31), immediate graph execution (ctx.Compute boundaries), all layers Put on every pass, "
-            "reserve passes, the cached curMask between passes (SetCausal is observed only inside an accepted pass). "
-            "Still open: defrag preserves abs (repaired variant) and "
-            "compacts (full-is-error as an iff) — covered by L1/L2 only; the end-to-end theorem "
-            "forward_exposes_stored_history is for placements without defrag. The model variant (which repairs "
-            "the tree carries) is probed from the real code on every run. "
-            "Known defects of the pinned tree are mirrored by the model and excluded by explicit guards in the "
-            "_partial theorems: F14 (defrag coalescing), F15/F15b (sliding window after Remove/CopyPrefix), "
-            "F23 (defrag before any Put).",
+            "2^31), immediate graph execution (ctx.Compute boundaries / maxMoves flushes), all layers Put on every pass (one "
+            "abstract row array; the driver compares every layer), the cached curMask between passes (SetCausal is observed "
+            "only inside an accepted pass). Theorems about defrag / refinement are for the repaired coalescing (fixDefrag, "
+            "in the tree; F14 witness shows the pinned one is wrong). canResume_sound assumes the sequence holds no position "
+            "twice (on-contract histories). The model variant (which repairs the tree carries: F14, F15b, F23, SWA capacity, "
+            "F28 atomic Remove) is probed from the real code on every run; the F14/F15b/F23 witnesses are historical "
+            "(fixed in /repo), F15, F28 and F3 are live. WrapperCache.Remove stops at the first failing wrapped cache after "
+            "earlier ones succeeded (not atomic across caches; cache.go asks callers to clear the sequence after an error).",
 }
 
 MODULES = ["OllamaVerif.Properties.C06", "OllamaVerif.Tie.C06"]
 THEOREMS = [
+    "OllamaVerif.C06.history_exposes_spec",
+    "OllamaVerif.C06.refines_all_histories",
+    "OllamaVerif.C06.forward_exposes_all_histories",
+    "OllamaVerif.C06.refines_run",
+    "OllamaVerif.C06.refines_step",
+    "OllamaVerif.C06.refines_nonvacuous",
     "OllamaVerif.C06.mask_exact",
     "OllamaVerif.C06.mask_exact_all_histories",
     "OllamaVerif.C06.mask_exact_pass",
@@ -50,7 +65,6 @@ THEOREMS = [
     "OllamaVerif.C06.visE_false",
     "OllamaVerif.C06.forward_exposes_stored_history",
     "OllamaVerif.C06.forward_exposes_stored_history_defrag",
-    "OllamaVerif.C06.forward_exposes_all_histories",
     "OllamaVerif.C06.defrag_abs_perm",
     "OllamaVerif.C06.placeBase_abs_perm",
     "OllamaVerif.Causal.defragCore_perm",
@@ -58,9 +72,7 @@ THEOREMS = [
     "OllamaVerif.Causal.defragCore_freeCount",
     "OllamaVerif.Causal.findStart_compact_none",
     "OllamaVerif.C06.full_only_without_room",
-    "OllamaVerif.C06.refines_step",
-    "OllamaVerif.C06.refines_run",
-    "OllamaVerif.C06.refines_all_histories",
+    "OllamaVerif.C06.freshEmpty_run",
     "OllamaVerif.C06.rejected_forward_abs",
     "OllamaVerif.C06.specStep_perm",
     "OllamaVerif.C06.rowsFresh_run",
